@@ -347,7 +347,8 @@ pub fn parse_proj(definition: &str) -> Result<String, Error> {
                 .collect();
 
             if step_is_inverted != pipeline_is_inverted {
-                elements.insert(1, "inv".to_string());
+                // A step consisting of `inv` only has nothing left to put the modifier after
+                elements.insert(1.min(elements.len()), "inv".to_string());
             }
 
             geodesy_step = elements.join(" ").trim().to_string();
